@@ -50,3 +50,23 @@ package fingerproxy
 //@ func defaultTLSConfig :: cw -> cfg
 //@   props C14
 //@   ensures [C14:certificates-only-through-watcher] cfg != nil && cfg.GetCertificate != nil && len(cfg.Certificates) == 0
+
+//@ -- C15 / configuration: a boolean environment setting is true or false whatever the letter case of the word,
+//@ -- and anything else falls back to the default
+//@ pure func lowerOf(s string) string
+//@ pure func envSet(key string) bool
+//@ pure func envVal(key string) string
+//@ func os.LookupEnv :: key -> v, ok
+//@   trusted
+//@   pure
+//@   ensures ok == envSet(key) && v == envVal(key)
+//@ func strings.ToLower :: s -> r
+//@   trusted
+//@   pure
+//@   ensures r == lowerOf(s)
+//@ func envWithDefaultBool :: key, defaultVal -> r
+//@   props C15,C09
+//@   assigns nothing
+//@   ensures [C15:boolean-setting-case-insensitive-true] envSet(key) && lowerOf(envVal(key)) == "true" ==> r
+//@   ensures [C15:boolean-setting-case-insensitive-false] envSet(key) && lowerOf(envVal(key)) == "false" ==> !r
+//@   ensures [C15:boolean-setting-falls-back-to-default] !envSet(key) || (lowerOf(envVal(key)) != "true" && lowerOf(envVal(key)) != "false") ==> r == defaultVal
